@@ -24,7 +24,7 @@ ASSUMPTIONS = ["the year-range clause of --merge-copyrights is asserted right af
                "contributors are read with the tool's own extractor from the header carrier"]
 MIN_NONTRIVIAL = {"quick": 300, "thorough": 15000}
 
-HOLDERS = ["Jane Doe", "Example Corp. <https://example.com>", "Zoë Müller", "ACME, Inc.", "The X Authors", "名前 太郎"]
+HOLDERS = ["Jane Doe", "Example Corp. <https://example.com>", "Zoë Müller", "ACME, Inc.", "The X Authors", "名前 太郎", "2600 Hacker Collective"]
 LICS = ["MIT", "GPL-3.0-or-later", "Apache-2.0 OR MIT", "0BSD", "LicenseRef-own-1.0", "GPL-2.0-or-later WITH Classpath-exception-2.0",
         "Apache-2.0 OR (Apache-2.0 AND LicenseRef-extra-terms)"]
 CONTRIBS = ["Ann C", "Bob <bob@example.com>", "Çağrı",
@@ -154,8 +154,8 @@ def run_history(res, ctx, root, rng, hidx, max_steps, con):
             holders = [holders[0] + rng.choice([" */", " -->", " #}", " }"])] + holders[1:]
         prefix = rng.choice(list(notice.PREFIXES)) if rng.random() < 0.4 else None
         r = rng.random()
-        if r < 0.2:
-            years, ytext = None, None
+        if r < 0.2 and not any(h[:4].isdigit() for h in holders):
+            years, ytext = None, None   # (a name that starts with four digits is only ever stated with a year in front of it)
         elif r < 0.8:
             y = str(rng.randint(1990, 2030))
             years, ytext = [y], y
